@@ -4,7 +4,7 @@ CONSTANTS
   MaxCalls = 14
   Lattice = "L5"
   Protos = {"seg", "pt"}
-  SampleMod = 37
+  SampleMod = 7
 INIT Init
 NEXT Next
 CONSTRAINT Emit
